@@ -757,24 +757,20 @@ func init() {
 			// Internal.ServiceDump lists the mappings of ALL gateways (state.DumpGatewayServices): nothing has
 			// authorized a gateway's name before the filter, so both names must be readable here (unlike
 			// Catalog.GatewayServices, which authorizes its one gateway up front).
-			// First everything under the weaker reading (linked service only); only if that is clean is a
-			// returned mapping with an unreadable gateway reported, as its own narrow class.
-			w := &orc{az: o.az, typ: o.typ}
-			r1 := w.checkCSNs("Nodes", i.Nodes, u.Nodes)
-			r2 := checkList(w, "Gateways", []*structs.GatewayService(i.Gateways), []*structs.GatewayService(u.Gateways), idGS, w.readGS)
-			r3 := w.checkCSNs("ImportedNodes", i.ImportedNodes, u.ImportedNodes)
-			w.checkFlag(i.ResultsFilteredByACLs, u.ResultsFilteredByACLs, r1 || r2 || r3)
-			if len(w.fail) > 0 {
-				o.fail, o.kinds, o.extra = w.fail, w.kinds, w.extra
-				return
-			}
+			r1 := o.checkCSNs("Nodes", i.Nodes, u.Nodes)
 			for _, g := range u.Gateways {
-				if !o.serviceRead("", g.Gateway.Name) {
+				if o.serviceRead("", g.Service.Name) && !o.serviceReadOpt("", g.Gateway.Name) {
 					o.bad("gateway-name-returned", "Gateways: mapping %s (service %q) returned although its gateway %q may not be read",
 						idGS(g), g.Service.Name, g.Gateway.Name)
-					return
+					break
 				}
 			}
+			r2 := checkList(o, "Gateways", []*structs.GatewayService(i.Gateways), []*structs.GatewayService(u.Gateways), idGS,
+				func(g *structs.GatewayService) bool {
+					return o.serviceRead("", g.Service.Name) && o.serviceReadOpt("", g.Gateway.Name)
+				})
+			r3 := o.checkCSNs("ImportedNodes", i.ImportedNodes, u.ImportedNodes)
+			o.checkFlag(i.ResultsFilteredByACLs, u.ResultsFilteredByACLs, r1 || r2 || r3)
 		}})
 
 	// ---- agent/consul/filter.go ---------------------------------------------------------------------
